@@ -108,17 +108,39 @@ def enum_crashes(seed):
                 return real(*a, **k)
             return f
     try:
-        for s in range(12):
+        for s in range(15):
             rnd = random.Random(seed * 1000 + s)
             names = rnd.sample(c18.NAMES, 4)
             src = os.path.join(scratch, f"s{s}")
-            c18._build(rnd, src, names)
+            if s < 12:
+                c18._build(rnd, src, names)
+            else:
+                # a hardlink group of three names in the package, merged over regular files of the same names
+                names = ["a", "b", "d1/a", "x y"][: 3 + s % 2]
+                os.makedirs(os.path.join(src, "d1"))
+                open(os.path.join(src, "a"), "w").write(f"group {s}")
+                os.link(os.path.join(src, "a"), os.path.join(src, "b"))
+                os.link(os.path.join(src, "a"), os.path.join(src, "d1/a"))
             want = c18._snapshot(src)
             stop = 1
             while True:
                 root = os.path.join(scratch, f"r{s}_{stop}")
-                c18._build(random.Random(seed * 77 + s), root, names[:3])   # overlapping names: entries get replaced
+                if s < 12:
+                    c18._build(random.Random(seed * 77 + s), root, names[:3])   # overlapping names: entries get replaced
+                else:
+                    os.makedirs(os.path.join(root, "d1"))
+                    for n in names:
+                        open(os.path.join(root, n), "w").write(f"old {n}")
                 os.makedirs(root, exist_ok=True)
+                # pre-existing files that are hardlinked from elsewhere on the root (st_nlink > 1): replacing them must be just as atomic
+                r2 = random.Random(seed * 31 + s)
+                outside = os.path.join(root, ".outside")
+                for dp, dn, fn in list(os.walk(root)):
+                    for n in fn:
+                        fp = os.path.join(dp, n)
+                        if os.path.isfile(fp) and not os.path.islink(fp) and (s >= 12 or r2.random() < .5):
+                            os.makedirs(outside, exist_ok=True)
+                            os.link(fp, os.path.join(outside, f"l{len(os.listdir(outside))}"))
                 before = c18._snapshot(root)
                 if any((v[0] == "dir") != (before[k][0] == "dir") for k, v in want.items() if k in before):
                     break
@@ -156,7 +178,7 @@ def enum_crashes(seed):
                 stop += 1
     finally:
         shutil.rmtree(scratch, ignore_errors=True)
-    return {"name": "C19.interrupted_merges.bounded_enumeration", "bound": "12 seeded trees of 4 entries merged over roots holding 3 of the same names, the merge stopped before every os call in turn "
+    return {"name": "C19.interrupted_merges.bounded_enumeration", "bound": "12 seeded trees of 4 entries merged over roots holding 3 of the same names and 3 hardlink groups of three names merged over regular files, pre-existing files partly hardlinked from elsewhere on the root; the merge stopped before every os call in turn "
             "(lchown, chmod, utime, mkdir, symlink, mkfifo, mknod, rename, link, unlink, rmdir); each pre-existing non-directory compared with its old and its complete new state", "cases": cases, "failures": fails}
 
 
